@@ -6,6 +6,7 @@ def dispatch (line : String) : String :=
   | "EX" :: toks => Drv.ExD.handle toks
   | "SP" :: toks => Drv.LaunchD.handleSplit toks
   | "WH" :: toks => Drv.LaunchD.handleWhich toks
+  | "SC" :: toks => Drv.ScreenD.handle toks
   | _ => "bad-op"
 
 partial def loop (h : IO.FS.Stream) (out : IO.FS.Stream) : IO Unit := do
